@@ -189,12 +189,20 @@ class Broker(object):
                 reply_code=530, reply_text='NOT_ALLOWED - channel_max',
                 class_id=20, method_id=10))
             return
+        if ch in getattr(self, 'closing_channels', ()):
+            # the broker has sent Channel.Close and still waits for the CloseOk:
+            # the number is not free yet
+            self.violations.append('Channel.Open on %d before its CloseOk' % ch)
         self.open_channels.add(ch)
         self.consumers[ch] = []
         self.send(ch, spec.Channel.OpenOk())
 
     def h_Channel_Close(self, ch, fr):
         self.channel_closes[ch] = self.channel_closes.get(ch, 0) + 1
+        if ch in getattr(self, 'closing_channels', ()):
+            # both sides closing at once: a Close crossing ours is answered, not an error
+            self.send(ch, spec.Channel.CloseOk())
+            return
         if ch not in self.open_channels and getattr(self, 'strict_close', False):
             # a method on a channel that is not open: CHANNEL_ERROR (504)
             self.violations.append('Channel.Close on closed channel %d' % ch)
@@ -208,9 +216,15 @@ class Broker(object):
 
     def h_Channel_CloseOk(self, ch, fr):
         self.channel_closeoks[ch] = self.channel_closeoks.get(ch, 0) + 1
+        if hasattr(self, 'closing_channels'):
+            self.closing_channels.discard(ch)
 
     def close_channel(self, ch, code=404, text='NOT_FOUND'):
         """Broker-initiated channel close."""
+        if not hasattr(self, 'closing_channels'):
+            self.closing_channels = set()
+        if ch in self.open_channels:
+            self.closing_channels.add(ch)
         self.open_channels.discard(ch)
         self.consumers.pop(ch, None)
         self.send(ch, spec.Channel.Close(reply_code=code, reply_text=text,
